@@ -55,6 +55,10 @@ def cases(tier, seed):
             c["store"] = ["files", "files+levels"][(i // 7) % 2]
         if i % 7 == 5:      # reached through `<symlinked directory>/../plt00020`
             c["reach"] = True
+        if i % 7 == 6:      # level directories under another prefix than the default
+            c["level_prefix"] = ["Lev_", "amr_level_"][(i // 7) % 2]
+        if i % 7 == 1:      # file numbers of five and six digits at one level
+            g["file_id_base"] = "mixed"
         cs.append(c)
     for i in range(n_thermo):
         g = dict(seed=rng.randrange(10 ** 9), ndims=3, nlevels=1 + i % 2, bf=2, base_blocks=(2, 3),
@@ -292,7 +296,10 @@ def run_case(case, work, rec):
     m = gen.gen_model(**g)
     path = os.path.join(work, "plt00020")
     gen.write_plotfile(m, path, ref_ratio_extra=rng.choice([0, 0, 1, 3]), trailing_blank=rng.random() < 0.7,
-                       close_blank=rng.random() < 0.3, floatfmt=rng.choice(["repr", "17g"]))
+                       close_blank=rng.random() < 0.3, floatfmt=rng.choice(["repr", "17g"]),
+                       level_prefix=case.get("level_prefix", "Level_"))
+    if case.get("level_prefix"):
+        rec.count("input_with_other_level_prefix")
     if case.get("store"):
         workload.to_store(path, level_links="levels" in case["store"])
         rec.count("input_with_linked_binary_files")
